@@ -13,6 +13,14 @@ Proof. intros A [|x l]; simpl; split; congruence. Qed.
 Lemma is_nil_false : forall (A : Type) (l : list A), is_nil l = false <-> l <> [].
 Proof. intros A [|x l]; simpl; split; congruence. Qed.
 
+Lemma nthN_nth_error : forall (A : Type) (l : list A) i, nthN l i = nth_error l (N.to_nat i).
+Proof.
+  induction l as [|x t IH]; intros i; simpl.
+  - destruct (N.to_nat i); reflexivity.
+  - destruct (N.eqb_spec i 0) as [-> | Hi]; [reflexivity|].
+    rewrite IH. replace (N.to_nat i) with (S (N.to_nat (N.pred i))) by lia. reflexivity.
+Qed.
+
 Lemma cut_nul_app_zero : forall p q, cut_nul (p ++ 0 :: q) = cut_nul p.
 Proof.
   induction p as [|c p IH]; intros q; simpl; [reflexivity|].
@@ -102,7 +110,7 @@ Qed.
 
 Lemma get_In : forall ids i d, get ids i = Ok d -> In d ids.
 Proof.
-  intros ids i d. unfold get. destruct (nth_error ids (N.to_nat i)) eqn:E; [|discriminate].
+  intros ids i d. unfold get. rewrite nthN_nth_error. destruct (nth_error ids (N.to_nat i)) eqn:E; [|discriminate].
   intro H. injection H as ->. eapply nth_error_In. exact E.
 Qed.
 
@@ -111,7 +119,7 @@ Lemma open_enumerated : forall slots id,
     open_dev slots (idrv id) (idev id) = Some (mkopened (idev id) (ikind id) (iname id)).
 Proof.
   intros slots id H. apply enumerate_from_spec in H as (j & d & H1 & H2 & H3).
-  unfold open_dev. rewrite H1. simpl (0 + _). rewrite Nat2N.id, H2, H3. reflexivity.
+  unfold open_dev. rewrite nthN_nth_error, H1. simpl (0 + _). rewrite Nat2N.id, H2, nthN_nth_error, H3. reflexivity.
 Qed.
 
 (* opening what get(i) returned yields a device with the kind and the name (and the id) get(i) reported *)
@@ -128,7 +136,7 @@ Qed.
 
 Lemma get_out_of_range : forall ids i, count ids <= i -> get ids i = Err.
 Proof.
-  intros ids i H. unfold get, count in *.
+  intros ids i H. unfold get, count in *. rewrite nthN_nth_error.
   destruct (nth_error ids (N.to_nat i)) eqn:E; [|reflexivity].
   assert (G : nth_error ids (N.to_nat i) <> None) by congruence.
   apply nth_error_Some in G. lia.
@@ -136,20 +144,21 @@ Qed.
 
 Lemma get_in_range : forall ids i, i < count ids -> exists d, get ids i = Ok d.
 Proof.
-  intros ids i H. unfold get, count in *.
+  intros ids i H. unfold get, count in *. rewrite nthN_nth_error.
   destruct (nth_error ids (N.to_nat i)) eqn:E; [eauto|].
   apply nth_error_None in E. lia.
 Qed.
 
-Lemma open_absent : forall slots drv dv,
-    nth_error slots (N.to_nat drv) = None \/ nth_error slots (N.to_nat drv) = Some None -> open_dev slots drv dv = None.
+Lemma open_absent : forall (slots : list (option driver)) drv dv,
+    nthN slots drv = None \/ nthN slots drv = Some None -> open_dev slots drv dv = None.
 Proof. intros slots drv dv [H | H]; unfold open_dev; rewrite H; reflexivity. Qed.
 
-Lemma open_bad_device : forall slots drv dv d,
-    nth_error slots (N.to_nat drv) = Some (Some d) -> (length d <= N.to_nat dv)%nat -> open_dev slots drv dv = None.
+Lemma open_bad_device : forall (slots : list (option driver)) drv dv (d : driver),
+    nthN slots drv = Some (Some d) -> N.of_nat (length d) <= dv -> open_dev slots drv dv = None.
 Proof.
-  intros slots drv dv d H1 H2. unfold open_dev. rewrite H1.
-  apply nth_error_None in H2. rewrite H2. reflexivity.
+  intros slots drv dv d H1 H2. unfold open_dev. rewrite H1, nthN_nth_error.
+  assert (G : (length d <= N.to_nat dv)%nat) by lia.
+  apply nth_error_None in G. rewrite G. reflexivity.
 Qed.
 
 (* ------------------------------------------------------------------ selection, any engine *)
@@ -280,10 +289,10 @@ Section EngineProofs.
                    count (enumerate slots) = 0 /\ (forall i, get (enumerate slots) i = Err) /\
                    (forall k p, select (enumerate slots) k p = Err) /\ (forall drv dv, open_dev slots drv dv = None)) /\
     (* opening through an absent driver slot, a driver id outside the table, or a device id the driver does not have *)
-    (forall slots drv dv, nth_error slots (N.to_nat drv) = None \/ nth_error slots (N.to_nat drv) = Some None ->
-                          open_dev slots drv dv = None) /\
-    (forall slots drv dv d, nth_error slots (N.to_nat drv) = Some (Some d) -> (length d <= N.to_nat dv)%nat ->
-                            open_dev slots drv dv = None).
+    (forall (slots : list (option driver)) drv dv,
+        nthN slots drv = None \/ nthN slots drv = Some None -> open_dev slots drv dv = None) /\
+    (forall (slots : list (option driver)) drv dv (d : driver),
+        nthN slots drv = Some (Some d) -> N.of_nat (length d) <= dv -> open_dev slots drv dv = None).
   Proof.
     assert (T : forall ids k p, select ids k p = Err \/ exists d, select ids k p = Ok d /\ In d ids /\ ikind d = k).
     { intros ids k p. unfold SelectModel.select. destruct (compile (cut_nul (prep p))); [apply scan_total | left; reflexivity]. }
@@ -302,11 +311,11 @@ Section EngineProofs.
     split; [exact get_out_of_range|]. split.
     { intros slots H. unfold enumerate. rewrite (enumerate_from_absent slots 0 H).
       split; [reflexivity|]. split.
-      - intros i. unfold get. destruct (N.to_nat i); reflexivity.
+      - intros i. reflexivity.
       - split.
         + intros k p. apply K. intros d Hd. contradiction.
-        + intros drv dv. unfold open_dev. destruct (nth_error slots (N.to_nat drv)) as [[d|]|] eqn:E; try reflexivity.
-          apply nth_error_In in E. apply H in E. discriminate E. }
+        + intros drv dv. unfold open_dev. destruct (nthN slots drv) as [[d|]|] eqn:E; try reflexivity.
+          rewrite nthN_nth_error in E. apply nth_error_In in E. apply H in E. discriminate E. }
     split; [exact open_absent | exact open_bad_device].
   Qed.
 
@@ -404,9 +413,10 @@ Proof.
   induction p as [|c t IH]; intros fuel Hp Hf.
   - destruct fuel as [|f]; [simpl in Hf; lia | reflexivity].
   - simpl in Hp. apply andb_true_iff in Hp as [Hc Ht].
-    destruct fuel as [|[|f]]; [simpl in Hf; lia | simpl in Hf; lia |].
+    destruct fuel as [|f0]; [simpl in Hf; lia|].
     pose proof (plain_facts c Hc) as (_ & _ & _ & _ & _ & _ & _ & _ & H41 & _ & _ & _ & _ & H124 & _).
     cbn [p_seq]. rewrite H41, H124. cbn [orb].
+    destruct f0 as [|f]; [simpl in Hf; lia|].
     rewrite (p_term_plain f c t Hc Ht).
     rewrite (IH (S f) Ht); [reflexivity|]. simpl in Hf. lia.
 Qed.
@@ -472,9 +482,11 @@ Proof.
   assert (Hn' : p' <> []).
   { intro E. subst p'. apply eqfl_length in He. destruct p; [congruence | discriminate He]. }
   rewrite (select_plain ids k p Hp Hn), (select_plain ids k p' Hp' Hn').
-  unfold first_of. f_equal.
-  induction ids as [|x t IH]; simpl; [reflexivity|].
-  rewrite (eqfl_eq_l p p' (iname x) He), IH. reflexivity.
+  assert (F : forall l, find (fun d => (ikind d =? k) && eqfl p (iname d)) l =
+                        find (fun d => (ikind d =? k) && eqfl p' (iname d)) l).
+  { induction l as [|x t IH]; simpl; [reflexivity|].
+    rewrite (eqfl_eq_l p p' (iname x) He), IH. reflexivity. }
+  unfold first_of. rewrite F. reflexivity.
 Qed.
 
 (* A plain pattern that occurs inside the selected name IS the whole name. *)
